@@ -296,7 +296,6 @@ def shard_main(args):
     import hypothesis
     from hypothesis import given, settings, Phase, HealthCheck
     import numpy as np
-    np.seterr(all='ignore')
     mod = importlib.import_module(mod_name)
     known = load_known(mod.PROP_ID)
     stats = Stats()
@@ -521,8 +520,10 @@ def main(mod_name, tier, seed, nshards=None, budget=None, quiet=True):
         violations=violations,
     )
     if rc != 2:
-        os.makedirs(os.path.join(VERIF, 'evidence'), exist_ok=True)
-        with open(os.path.join(VERIF, 'evidence', f'{pid}.json'), 'w') as f:
+        # runs against a scratch (mutant) tree are not evidence about /repo
+        edir = os.path.join(VERIF, 'evidence' if REPO == '/repo' else 'evidence-scratch')
+        os.makedirs(edir, exist_ok=True)
+        with open(os.path.join(edir, f'{pid}.json'), 'w') as f:
             json.dump(evidence, f, indent=1, default=_json_default)
             f.write('\n')
     print(f'{pid} tier={tier} seed={seed} evaluations={tot.evaluations} '
